@@ -5,6 +5,16 @@ From Coq Require Import NArith ZArith Lia.
 From V Require Import Model.Lib Model.Afs.
 Open Scope N_scope.
 
+(* the insertion used by the executable model is the union with a singleton *)
+Lemma gs_add_union `{Countable K} (x : K) (s : gset K) : gs_add x s = {[x]} ∪ s.
+Proof.
+  apply set_eq. intros y. rewrite elem_of_union, elem_of_singleton.
+  unfold gs_add. destruct s as [m]. unfold elem_of at 1, gset_elem_of, mapset.mapset_elem_of. simpl.
+  destruct (decide (y = x)) as [->|Hne].
+  - rewrite lookup_insert. split; auto.
+  - rewrite lookup_insert_ne by auto. split; [auto|intros [E|E]; [contradiction|exact E]].
+Qed.
+
 Definition is_error (r : reply) : Prop :=
   match r with RStatus OK => False | RStatus _ => True | _ => False end.
 
@@ -42,7 +52,7 @@ Proof. destruct c; simpl; try discriminate; intros _; unfold do_read; cm; try (s
 Lemma issued_mono P s c h : issued s ⊆ issued (fst (step P s c h)).
 Proof.
   destruct c; simpl; unfold do_setattr, do_read, do_write, create, remove, rename, unlink, move, set_obj, del_obj;
-    cm; try set_solver.
+    cm; rewrite ?gs_add_union; try set_solver.
 Qed.
 
 (* where do the objects of the next state come from?  Either the object existed with the same
@@ -123,12 +133,12 @@ Qed.
 
 Lemma origin_create s i g di d' o d0 :
   objs s !! di = Some d0 -> o_gen d' = o_gen d0 -> o_gen o = g -> (i, g) ∉ issued s ->
-  origin s {| objs := <[i := o]> (<[di := d']> (objs s)); issued := {[ (i, g) ]} ∪ issued s;
+  origin s {| objs := <[i := o]> (<[di := d']> (objs s)); issued := gs_add (i, g) (issued s);
               unstable_opt := unstable_opt s |}.
 Proof.
   intros Hd Hg Ho Hf j g'. unfold gen_of at 1. simpl.
   destruct (decide (i = j)) as [->|Hij].
-  - rewrite lookup_insert. simpl. intros [= <-]. right. rewrite Ho. split; [auto|set_solver].
+  - rewrite lookup_insert. simpl. intros [= <-]. right. rewrite Ho. split; [auto|rewrite gs_add_union; set_solver].
   - rewrite lookup_insert_ne by auto. destruct (decide (di = j)) as [->|Hdj].
     + rewrite lookup_insert. simpl. intros [= <-]. left. unfold gen_of. rewrite Hd. simpl. congruence.
     + rewrite lookup_insert_ne by auto. auto.
@@ -216,7 +226,7 @@ Proof.
   match goal with H : parse_handle hh = Some (?i, ?g) |- _ => exists i, g end.
   split; [auto|]. split.
   - eapply fresh_not_issued. match goal with H : negb (fresh _ _ _ _) = false |- _ => apply negb_false_iff in H; exact H end.
-  - split; [simpl; set_solver|]. unfold gen_of; simpl. rewrite lookup_insert. reflexivity.
+  - split; [simpl; rewrite gs_add_union; set_solver|]. unfold gen_of; simpl. rewrite lookup_insert. reflexivity.
 Qed.
 
 (* every handle-typed argument position of every procedure *)
